@@ -132,6 +132,15 @@ class Verifier(Interp):
         self.exits = 0
         self.call_log = []
         self.variant = ""
+        self.extra_attrs_arbitrary = False  # contract option, see extra_attrs.py
+        self.extra_attr_templates = {}
+        self.extra_pass = False
+
+    def record_attr_store(self, obj, name, val):
+        if self.extra_attrs_arbitrary and not self.extra_pass:
+            from . import extra_attrs
+
+            extra_attrs.record(self, obj, name, val)
 
     def old_vars_of(self, fr):
         return self.top_old
@@ -251,6 +260,11 @@ class Verifier(Interp):
             params = dict(setup)
             self.bind_named(func, params, fr)
             vars = dict(fr.vars)
+            self.entry_live = vars
+            if self.extra_pass:
+                from . import extra_attrs
+
+                extra_attrs.populate(self, vars, self.extra_attr_templates.get(self.base_variant, {}))
             for j, cl in enumerate(c.requires):
                 lab, text = split_label(cl, f"pre{j}")
                 self.assume(eval_clause(self, text, vars, globs, extra=self.spec_extra))
@@ -325,9 +339,22 @@ class Verifier(Interp):
         variants = c.variants if c.variants else {"": c.setup}
         npaths = 0
         for vname, variant_setup in variants.items():
-            self.variant = vname
+            self.variant = self.base_variant = vname
+            self.extra_pass = False
             self.explore(body)
             npaths += self.paths
+            if self.extra_attrs_arbitrary and self.extra_attr_templates.get(vname):
+                # HISTORY INDEPENDENCE (pyvc/extra_attrs.py): the carrier stored attributes on an input object that the object did not have at
+                # entry (a cache, a lazily built table).  A later call finds them there, left by an EARLIER call in an earlier state of the
+                # columns: the carrier is verified once more on inputs that already carry every such attribute with an ARBITRARY value of the
+                # shape the code stores (same obligations, same names: the answer must be a function of the current columns only)
+                self.variant = (vname + " | " if vname else "") + "extra attributes left by an earlier call: arbitrary"
+                self.extra_pass = True
+                try:
+                    self.explore(body)
+                finally:
+                    self.extra_pass = False
+                npaths += self.paths
         self.paths = npaths
         stats["paths"] = self.paths
         stats["exits"] = self.exits
